@@ -61,6 +61,14 @@ StreamCases == \A body \in {0, 1, 2, 17} : \A pre \in SeqsOfLen(Sizes, 3) : \A r
           \* the property: round trip for EVERY chunking.  single_read_gets: what an implementation that reads the header
           \* with one Read call would obtain (it works only if this is 16)
           out |-> [ok |-> TRUE, single_read_gets |-> FirstRead(pre \o <<rest>>, HeaderLen + body)]])
+\* The stream body is AES-256-CTR under the derived key and iv: with E the (uninterpreted) block cipher and iv + j the
+\* 128-bit big-endian counter, body[i] = plain[i] XOR E(key, iv + (i \div 16))[i % 16] - a function of the POSITION of a
+\* byte in the stream only, whatever Read / Write calls the bytes travel in.  StreamShape varies the shape of the
+\* plaintext reader (long chunk, then a shorter one, then more data; empty reads in between) on bodies of several
+\* cipher blocks, and feeds the resulting message back through a reader of another shape.
+ShapeSizes == {0, 1, 5, 16, 17, 33}
+StreamShape == \A body \in {40, 100} : \A pc \in SeqsOfLen(ShapeSizes, 4) : \A rest \in {1, 1000} : \A eof \in {"with_data", "separate"} :
+    Emit([fn |-> "streamshape", s |-> pc, a |-> <<body, rest, eof>>, out |-> [len |-> HeaderLen + body]])
 StreamBad == \A keep \in {0, 1, 8, 15} : \A rest \in {1, 1000} :
     Emit([fn |-> "streambad", s |-> <<>>, a |-> <<keep, rest>>, out |-> <<>>])
 \* two stream encryptions in flight at once (the functions are package-level and keep no state of their own): the writer
@@ -77,6 +85,7 @@ ASSUME EncTamper
 ASSUME EncAppend
 ASSUME StreamCases
 ASSUME StreamBad
+ASSUME StreamShape
 Init == x = 0
 Next == x' = x
 Spec == Init /\ [][Next]_x
